@@ -209,6 +209,9 @@ def get_godambe(func_ex, grid_pts, all_boot, p0, data, eps, log=False,
     if not boot_theta_adjusts:
         boot_theta_adjusts = numpy.ones(len(all_boot))
 
+    # The cached spectra are only valid for this analysis: func_ex may depend
+    # on state that is not part of the key (e.g. Integration.timescale_factor).
+    cache.clear()
     # Cache evaluations of the frequency spectrum inside our hessian/J 
     # evaluation function
     def func(params, data, theta_adjust=1):
